@@ -18,7 +18,7 @@ def perturb(rng, v, start, count, stride, numrecs, isput, strict):
     lim = numrecs if isrecdim else v.shape[d]
     s, c, t = list(start), list(count), list(stride)
     # make every dimension before d valid and non-empty so that d decides
-    kind = rng.choice(['neg_start', 'big_start', 'eq_start', 'neg_count', 'edge', 'stride0', 'stride_neg', 'stride_edge'])
+    kind = rng.choice(['neg_start', 'big_start', 'eq_start', 'neg_count', 'edge', 'stride0', 'stride_neg', 'stride_edge', 'stride_edge_exact', 'stride_edge_exact', 'stride_last_valid'])
     form = 'vars'
     if kind == 'neg_start':
         s[d] = -1 - rng.below(3); exp = EINVALCOORDS
@@ -54,6 +54,20 @@ def perturb(rng, v, start, count, stride, numrecs, isput, strict):
         t[d] = -1 - rng.below(2); exp = ESTRIDE
         if c[d] > 1 or (isrecdim and not isput):
             return None                      # the edge test (start+(count-1)*stride) would speak first
+    elif kind in ('stride_edge_exact', 'stride_last_valid'):
+        # the last addressed index lands exactly ON the dimension length (must be rejected), or exactly on
+        # the last valid index (must be accepted): the boundary of the strided edge test
+        if (isrecdim and isput) or lim < 2:
+            return None
+        t[d] = rng.choice([2, 2, 3, 5])
+        c[d] = rng.range(2, 4)
+        last = lim if kind == 'stride_edge_exact' else lim - 1
+        s[d] = last - (c[d] - 1) * t[d]
+        if s[d] < 0:
+            c[d] = 2; t[d] = 2; s[d] = last - 2
+            if s[d] < 0:
+                return None
+        exp = EEDGE if kind == 'stride_edge_exact' else 0
     else:  # stride_edge
         if (isrecdim and isput) or lim < 2:
             return None
@@ -96,8 +110,11 @@ def gen_inv_session(rng, np_=None):
             ln = sess.one_access('put' if isput else 'get', 'c', v, s, cn, t, form=form)
             sess.ann[ln]['expect_rc'] = exp
             sess.ann[ln]['perturbation'] = tag
-            if exp == 0:
+            if exp == 0 and tag != 'stride_last_valid':
                 sess.ann[ln]['count'] = [0] * v.nd       # zero-length: addresses nothing
+            if tag == 'stride_last_valid':
+                sess.ann[ln]['expect_rc'] = None
+                sess.note_put_numrecs(v, s, cn, t) if isput else None
         elif c < 9 and v.nd > 0:
             # zero-length request
             cn = list(count); cn[rng.below(v.nd)] = 0
